@@ -542,19 +542,22 @@ def generate(unit_dir, features=("parallel", "shred-derive"), mode="T", active=N
     em.add("verus! {", part="gen")
     for f in unit.get("prelude", []):
         txt = open(os.path.join(unit_dir, f)).read()
-        txt = select_mode(txt, mode, features)
+        lines, conds = select_mode(txt, mode, features, active, with_cond=True)
         em.add("// ======== prelude %s" % f, part="prelude")
-        em.add(txt, part="prelude", file=f)
+        for l, c in zip(lines, conds):
+            em.add(l, part="prelude", file=f, label=(c + ".trait") if c else None)
     cur_owner = None
     used = set()
     for it_spec in unit["items"]:
         if "cfg" in it_spec and not all((c in features) for c in it_spec["cfg"]):
             continue
+        if it_spec.get("groups") and active is not None and not (set(it_spec["groups"]) & active):
+            continue   # item only matters to other properties
         if "text" in it_spec:  # literal verus text from the unit (spec helpers between items)
             if cur_owner is not None:
                 em.add("}", part="gen")
                 cur_owner = None
-            em.add(select_mode(it_spec["text"], mode, features), part="lib")
+            em.add(select_mode(it_spec["text"], mode, features, active), part="lib")
             continue
         path = os.path.join(REPO, it_spec["file"])
         items = items_of(path)
@@ -578,35 +581,54 @@ def generate(unit_dir, features=("parallel", "shred-derive"), mode="T", active=N
             emit_plain(it_spec, item, unit, em, extraction, features)
     if cur_owner is not None:
         em.add("}", part="gen")
-    unused = set(contracts) - used
+    skipped = set(i["key"] for i in unit["items"] if "key" in i and i.get("groups") and active is not None and not (set(i["groups"]) & active))
+    skipped |= set(i["key"] for i in unit["items"] if "key" in i and "cfg" in i and not all((c in features) for c in i["cfg"]))
+    unused = set(contracts) - used - skipped
     if unused:
         raise Unsupported("contracts without item: %s" % sorted(unused))
     for f in unit.get("lib", []):
         txt = open(os.path.join(unit_dir, f)).read()
         em.add("// ======== lib %s" % f, part="lib")
-        em.add(select_mode(txt, mode, features), part="lib", file=f)
+        em.add(select_mode(txt, mode, features, active), part="lib", file=f)
     em.add("} // verus!", part="gen")
     em.add("fn main() {}", part="gen")
     return em, extraction, contracts, unit
 
 
-def select_mode(txt, mode, features):
-    """lines between `//@if X` and `//@endif` are kept only if X is the current mode or an enabled feature
-    (`//@if !X` for the negation)"""
-    out, keep = [], [True]
+def select_mode(txt, mode, features, active=None, with_cond=False):
+    """lines between `//@if X` and `//@endif` are kept only if X holds: X is the current mode (T / P), an enabled
+    feature, or an active clause group; `A|B` = any of them; `!X` negates.  With active=None (all groups) group
+    conditions hold.  with_cond: also return, per kept line, the clause groups of the innermost enclosing group
+    condition (so a failing trait-level clause of the prelude can be attributed to a property)."""
+    NONGROUP = ("T", "P", "parallel", "shred-derive", "nightly", "debug_assertions")
+
+    def holds(x):
+        if x == mode or x in features:
+            return True
+        if x in NONGROUP:
+            return False
+        return active is None or x in active
+    out, conds, keep, gstack = [], [], [True], [None]
     for line in txt.split("\n"):
         m = re.match(r"\s*//@if (!?)(\S+)", line)
         if m:
-            v = (m.group(2) == mode) or (m.group(2) in features)
+            alts = m.group(2).split("|")
+            v = any(holds(x) for x in alts)
             if m.group(1):
                 v = not v
             keep.append(keep[-1] and v)
+            g = [x for x in alts if x not in NONGROUP]
+            gstack.append(",".join(g) if g and not m.group(1) else gstack[-1])
             continue
         if re.match(r"\s*//@endif", line):
             keep.pop()
+            gstack.pop()
             continue
         if keep[-1]:
             out.append(line)
+            conds.append(gstack[-1])
+    if with_cond:
+        return out, conds
     return "\n".join(out)
 
 
